@@ -193,7 +193,7 @@ func (d *Decoder) readTypedMap() (interface{}, error) {
 			if err != nil {
 				return nil, err
 			}
-			v, err := convertValue(EnsureRawValue(value), mType.Elem())
+			v, err := convertValue(itemValue(value, mType.Elem()), mType.Elem())
 			if err != nil {
 				return nil, err
 			}
@@ -288,7 +288,7 @@ func (d *Decoder) readMap(dest reflect.Value, tag byte) error {
 		if err != nil {
 			return newCodecError("readMap", err)
 		}
-		v, err := convertValue(EnsureRawValue(vl), mapTyp.Elem())
+		v, err := convertValue(itemValue(vl, mapTyp.Elem()), mapTyp.Elem())
 		if err != nil {
 			return newCodecError("readMap", err)
 		}
